@@ -44,7 +44,7 @@ theorem dead_connection_reported (k : Nat) (writeOk : Bool) (s : Recv.St) :
         [C18.Ev.fire, C18.Ev.iter true true])).2
       = List.replicate k C18.Act.ping ++ [C18.Act.ping, C18.Act.close, C18.Act.stop] ∧
     readsFail (xmppClose writeOk) = true ∧ readsFail (wsClose writeOk) = true ∧
-    (Recv.clientRecv s [Recv.In.cut]).2 = [Recv.Act.errh, Recv.Act.disconnected s.smId s.inbound, Recv.Act.quitClosed] := by
+    (Recv.clientRecv s [Recv.In.cut]).2 = [Recv.Act.quitClosed, Recv.Act.errh, Recv.Act.disconnected s.smId s.inbound] := by
   refine ⟨?_, (close_fails_reads writeOk).1, (close_fails_reads writeOk).2, rfl⟩
   induction k with
   | zero => rfl
